@@ -71,6 +71,14 @@ CHECKS = {
             'parameter must carry exactly one sync watcher of the target iff a live link depends on it.',
             'explicit-state BFS over operation histories of the real code vs. a reference model of live links',
             BASE_NOTE),
+    'C12': ('model_checking', 'DESIGN.md §3 C12',
+            'BFS over instance creation (plain, with keyword, with a reference that yields no value), instance / class / subclass assignments, in-place '
+            'mutation of values through instances and classes, Parameter attribute assignment and in-place mutation of a Selector\'s objects on instances and '
+            'classes, for a class with instantiate=True, shared, bounded, constant, per_instance=False and allow_refs parameters and a subclass that '
+            'redeclares one with a narrower type; after every step the whole observation matrix (every class and instance x every parameter: value, '
+            'contents, alias class) must equal an ownership model, and instance-level attribute changes must leave every other holder\'s attributes untouched.',
+            'explicit-state BFS over operation histories of the real code vs. an ownership / aliasing model',
+            BASE_NOTE),
     'C13': ('model_checking', 'DESIGN.md §3 C13',
             'BFS over class-level assignments at every level of A->B->C / A->B2, add_parameter of a new and of an existing name at every level, '
             'cache-filling namespace reads, instance creation, instance assignment and instance namespace access; in every reached state, for every '
